@@ -52,6 +52,16 @@ CLAIMED = {
          "Every durable row must be named (table, pk values) by the lock key of the registration preceding its commit, with one key text per row across the run; SELECT ... FOR UPDATE returns rows only after a lockable answer naming them and releases its local locks on conflict; no commit while the coordinator's lock table has the row held by another xid or after a refused registration.",
          "Lock-key grammar and lock-table semantics are those of Seata (keys opaque to the coordinator). Interleavings of the two-transaction part are limited to orders the database's row locks permit.",
          "DESIGN.md §4 C03"),
+ "C09": ("exploration",
+         "runtime monitor: real AT driver + RM in a client child against the MySQL-protocol fake and the fake coordinator; a foreign writer (plain connection) modifies the branch's rows between local commit and BranchRollback; three-way oracle on ground-truth row versions (before branch / after branch / current) taken from the fake database, never from the undo log",
+         "Committed branches (INSERT 1/3 rows, UPDATE 1/many rows incl. value-preserving updates, DELETE 1/many rows, upsert hit/miss; four key shapes) x foreign modification {none, written column, unwritten column, delete, re-insert same/different, some rows of many, revert to before} x foreign value {far, near: neighbour integers incl. beyond 2^53, next float, numeric-looking text in another spelling, +1 s} x only-care-update-columns x serializer; dirty rows must survive with the undo log kept and a non-Rollbacked answer; rows equal to the before image => Rollbacked without a durable write; rows equal to the after image => restored.",
+         "Validation-off runs are a control group without verdict. Mixed before/after row sets without a dirty row get no verdict (the code compares whole image sets and refuses, which is conservative). A row matched but left unchanged by the branch only has to survive.",
+         "DESIGN.md §4 C09"),
+ "C10": ("fault_enumeration",
+         "runtime monitor with fault injection at the database wire protocol and logical barriers inside the fake database: repeated and simultaneous BranchRollback deliveries; a failure at every command index of the rollback transaction followed by a clean retry; BranchRollback delivered while phase one is held at its undo-log INSERT or at its COMMIT; oracles over ground-truth snapshots and the coordinator's frame log",
+         "repeat: 1..3 sequential deliveries and 2 simultaneous ones per branch -> every sequential delivery Rollbacked, state == pre-state, later deliveries write nothing; faults: every command of the rollback transaction (BEGIN, undo-log SELECT FOR UPDATE, validation reads, each compensation, undo-log DELETE, COMMIT) x {error, connection lost before/after execution} -> tables equal the phase-one state with the undo log kept or the pre-state, never in between, Rollbacked only with the pre-state, clean retry restores and answers Rollbacked; late: 1..3 deliveries while phase one is held -> if answered Rollbacked the held local commit fails and commits nothing, final retry ends in the pre-state.",
+         "The loser of two simultaneous deliveries may fail on the marker's unique key without an answer (the coordinator retries); only the following retry must be Rollbacked. The fake database ends the transaction when COMMIT fails. Hold at COMMIT relies on the fake's row-lock wait (1.5 s) like InnoDB's.",
+         "DESIGN.md §4 C10"),
  "C18": ("exploration",
          "runtime monitor: ground-truth matched/changed rows recorded by the fake database for the business command vs. the images in the undo_log row read with an independent JSON reader",
          "One intercepted statement per case (UPDATE/DELETE with generated WHERE trees incl. parentheses, IN, BETWEEN, ORDER BY/LIMIT and parameters at every position; INSERT 1-4 rows; upserts; pk-changing updates) over five key shapes and both only-care-update-columns settings: changed rows ⊆ image rows ⊆ matched rows, exact field values, required columns present, pk changes rejected, rejected statements leave nothing durable.",
